@@ -64,7 +64,8 @@ SIZES = {
     'C19': {'quick': {'s4': 600, 's1': 120, 'm': 2, 'vanish': 80, 's3': 60},
             'thorough': {'s4enum': 400, 's4': 20000, 's1': 3000, 'm': 3, 'vanish': 2000,
                          's3': 2000}},
-    'C20': {'quick': {'s2': 500}, 'thorough': {'s2': 12000, 's2enum': 40, 's2sweep': 32}},
+    'C20': {'quick': {'s2': 500, 's2race': 4},
+            'thorough': {'s2': 12000, 's2enum': 40, 's2sweep': 32, 's2race': 48}},
 }
 
 
@@ -118,7 +119,7 @@ def selftest_tasks(prop, seed, n):
                     t['type'] = 's2'
                 if t['type'] == 's4enum':
                     t['type'] = 's4'
-                if t['type'] == 's2sweep':
+                if t['type'] in ('s2sweep', 's2race'):
                     t['type'] = 's2'
                 out.append({'type': 'digest', 'inner': t})
         i += 1
@@ -142,6 +143,9 @@ def run_task(task):
     if t == 's2sweep':
         from scenarios import admission
         return admission.run_sweep(task)
+    if t == 's2race':
+        from scenarios import admission
+        return admission.run_race(task)
     if t in ('s3', 's3enum'):
         from scenarios import abort
         return abort.run_task(task)
